@@ -51,3 +51,38 @@ pub fn sweep<W>(
     });
     total.into_inner().unwrap()
 }
+
+/// Parallel map preserving index order. `init` runs on each worker thread.
+pub fn pmap<W, R: Send>(n: usize, chunk: usize, init: impl Fn(usize) -> W + Sync, f: impl Fn(&mut W, usize) -> R + Sync) -> Vec<R> {
+    let next = AtomicU64::new(0);
+    let out: Mutex<Vec<(usize, R)>> = Mutex::new(Vec::with_capacity(n));
+    let nt = nthreads().min(((n + chunk - 1) / chunk).max(1));
+    std::thread::scope(|s| {
+        for w in 0..nt {
+            let next = &next;
+            let out = &out;
+            let init = &init;
+            let f = &f;
+            std::thread::Builder::new()
+                .stack_size(512 << 20)
+                .spawn_scoped(s, move || {
+                    let mut state = init(w);
+                    let mut local = vec![];
+                    loop {
+                        let start = next.fetch_add(chunk as u64, Ordering::Relaxed) as usize;
+                        if start >= n {
+                            break;
+                        }
+                        for i in start..(start + chunk).min(n) {
+                            local.push((i, f(&mut state, i)));
+                        }
+                    }
+                    out.lock().unwrap().extend(local);
+                })
+                .expect("spawn worker");
+        }
+    });
+    let mut v = out.into_inner().unwrap();
+    v.sort_by_key(|x| x.0);
+    v.into_iter().map(|x| x.1).collect()
+}
